@@ -118,3 +118,22 @@ class Arms(dict):
         if k in self and isinstance(self[k], tuple) and isinstance(v, tuple) and self[k] != v:
             v = ("conflict", self[k], v)
         super().__setitem__(k, v)
+
+
+class Undecided(Exception):
+    pass
+
+
+def pick(t, atom):
+    """walk the decision tree `t` (nested joins) deciding every test with atom(test) -> bool (and / or / not are taken apart here); atom raises Undecided
+    for a test it does not know.  Returns the leaf reached: finite evaluation of a function's result over an assignment of its atomic tests."""
+    def truth(c):
+        if isinstance(c, tuple) and c and c[0] == "bool":
+            vs = [truth(x) for x in c[2]]
+            return all(vs) if c[1] == "and" else any(vs)
+        if isinstance(c, tuple) and c and c[0] == "un" and c[1] == "not":
+            return not truth(c[2])
+        return atom(c)
+    while isinstance(t, tuple) and t and t[0] == "phi":
+        t = t[2] if truth(t[1]) else t[3]
+    return t
